@@ -45,7 +45,7 @@ CLAIMED = {
  "C08": ("exploration",
          "rapid-generated message programs x key types x issuer hashes (SHA-256/384/512 on the signer certificate) x chain shapes x signing APIs, each rendered twice (optionally after a failed render, optionally with an alternative added in between); oracle: own MIME reader + own CMS SignedData verifier (encoding/asn1 + crypto/*): structure, SHA-256 of the first part exactly as emitted == message-digest attribute, DER SET order, signature under the carried signer certificate, intermediate carried iff given, leaves of the signed entity == model, identical signed entity across renders",
          "Generated-input search with an independent verifier as oracle; sampled.",
-         "The CMS verifier is the harness' own (validated by the cases that verify); certificate path validation to a trust anchor is not part of the property; contents are in canonical CRLF form.",
+         "The CMS verifier is the harness' own (validated by the cases that verify, and in the thorough tier by a differential sample: one accepted render in four is also handed to `openssl smime -verify -noverify` when an openssl binary exists - which first has to reject a tampered copy); certificate path validation to a trust anchor is not part of the property; contents are in canonical CRLF form.",
          "DESIGN.md section 3, C08"),
  "C09": ("exploration",
          "grammar-based EML generator + structure-aware mutations + renderings of generated messages + arbitrary bytes, under six reader behaviours (rapid); repository fixtures and a hostile-constant corpus under every reader behaviour; thorough adds native coverage-guided fuzzing (go test -fuzz) with the oracle inside the target; oracle: returns without panic within a generous wall-clock bound",
